@@ -95,3 +95,89 @@ func (g *Gen) actStraddle() {
 		g.iterOp(it, "next", 0)
 	}
 }
+
+// actSdelChain: the internal kinds a later compaction receives as input.  An old SET pushed to
+// the bottom; DEL + SET in one memtable (flushed as SETWITHDEL); then SINGLEDEL (within its
+// contract: one SET since the last delete); then everything compacted together.  Variants:
+// with/without the intermediate flushes, a MERGE chain, a DELSIZED.
+func (g *Gen) actSdelChain() {
+	if g.noMerge {
+		return
+	}
+	k := g.key()
+	one := func(ops ...Ev) {
+		g.R.Exec(Ev{"op": "commit", "ops": ops, "sync": false})
+		g.track(ops)
+		g.afterWrite()
+	}
+	maint := func(kind string) {
+		g.R.Exec(Ev{"op": "maint", "kind": kind})
+	}
+	one(Ev{"o": "set", "k": k, "v": g.v()})
+	maint("flush")
+	maint("compact")
+	switch g.Rng.IntN(3) {
+	case 0:
+		one(Ev{"o": "del", "k": k}, Ev{"o": "set", "k": k, "v": g.v()})
+	case 1:
+		one(Ev{"o": "del", "k": k})
+		one(Ev{"o": "set", "k": k, "v": g.v()})
+	default:
+		one(Ev{"o": "delsized", "k": k, "sz": 3}, Ev{"o": "set", "k": k, "v": g.v()})
+	}
+	if g.Rng.IntN(3) > 0 {
+		maint("flush")
+	}
+	one(Ev{"o": "sdel", "k": k})
+	if g.Rng.IntN(2) == 0 {
+		maint("flush")
+	}
+	maint("compact")
+	g.afterMaint()
+	g.R.Exec(Ev{"op": "get", "src": 0, "k": k, "cls": g.P.LatestCls})
+	g.R.Exec(Ev{"op": "scan", "src": 0, "cls": g.P.LatestCls})
+}
+
+// actWindowScan: one iterator reused over adjacent windows [a,b), [b,c), ... through SetBounds,
+// forward (SeekGE lower, Next...) and backward (SeekLT upper, Prev...): the usage pattern the
+// table iterators optimise (bounds moving monotonically, the next seek in the loaded block).
+func (g *Gen) actWindowScan() {
+	R := g.U.R()
+	if len(g.iters) >= max(1, g.P.MaxIters) {
+		g.closeIter(g.iters[g.Rng.IntN(len(g.iters))])
+	}
+	it := &genIter{h: g.h(), src: 0, cls: g.P.IterCls, lo: 0, hi: R, kt: 0}
+	if g.P.RangeKeys > 0 && g.Rng.IntN(3) == 0 {
+		it.kt = 2
+	}
+	g.R.Exec(Ev{"op": "newiter", "h": it.h, "src": 0, "cls": it.cls, "lo": 0, "hi": R, "mask": 0, "kt": it.kt, "filter": false})
+	g.iters = append(g.iters, it)
+	// window boundaries
+	cuts := []int{0}
+	for x := 1; x < R; x++ {
+		if g.Rng.IntN(3) == 0 {
+			cuts = append(cuts, x)
+		}
+	}
+	cuts = append(cuts, R)
+	if g.Rng.IntN(2) == 0 {
+		for i := 0; i+1 < len(cuts); i++ {
+			g.R.Exec(Ev{"op": "setbounds", "h": it.h, "lo": cuts[i], "hi": cuts[i+1]})
+			it.lo, it.hi = cuts[i], cuts[i+1]
+			g.iterOp(it, "seekge", cuts[i])
+			for n := 0; n < R+2 && g.lastValid; n++ {
+				g.iterOp(it, "next", 0)
+			}
+		}
+	} else {
+		for i := len(cuts) - 1; i > 0; i-- {
+			g.R.Exec(Ev{"op": "setbounds", "h": it.h, "lo": cuts[i-1], "hi": cuts[i]})
+			it.lo, it.hi = cuts[i-1], cuts[i]
+			g.iterOp(it, "seeklt", cuts[i])
+			for n := 0; n < R+2 && g.lastValid; n++ {
+				g.iterOp(it, "prev", 0)
+			}
+		}
+	}
+	it.dirlock = ""
+}
